@@ -23,4 +23,6 @@ FIXED_BY_SUBJECT = {
  "fix: indefinite-length SET members after the one declared last": [
    ('C02', 'CER SET whose member declared last sorts first could not be decoded (spec dropped to None)'),
    ('C09', 'indefinite-length SET with permuted members')],
+ "fix: nested constructed fragments of BIT STRING and OCTET STRING": [
+   ('C09', 'nested (constructed inside constructed) string segments decoded with inner headers in the value / Trailing bits overflow')],
 }
